@@ -6,7 +6,7 @@
 Require Import ZArith List Bool.
 From D377 Require Import Base.Certs Base.ZpField Base.FieldSec Base.Fields Model.Decaf Model.Gadgets Model.Concrete.
 From D377 Require Import Spec.Edwards Spec.DecafSpec Proofs.Instance Proofs.Final Proofs.GadgetProofs Props.C13.
-From D377 Require Import Generated.GadgetsGen Tie.Gadgets.
+From D377 Require Import Generated.GadgetsGen Tie.Gadgets Tie.GadgetsSign.
 Local Existing Instance FqF.
 
 Lemma fq_neg_m1 : fq_neg (opp one) = false. Proof. reflexivity. Qed.
@@ -24,6 +24,18 @@ Definition gen_isqrt_const := @isqrt_gen_const FqF ark_sr.
 Definition gen_decode := @decode_gen FqF ark_D ark_ZETA fq_neg.
 Definition gen_encode := @encode_gen FqF ark_A ark_D ark_ZETA fq_neg.
 Definition gen_elligator := @elligator_gen FqF ark_A ark_D ark_ZETA fq_neg.
+(* the sign gadgets, generated from fqvar_ext.rs: is_nonnegative reads bit 0 of the range-checked bit decomposition of its input *)
+Definition fq_bits_le (x : Fq) : list bool := map (fun i => Z.testbit (val x) (Z.of_nat i)) (seq 0 253).
+Lemma fq_bits_le_0 : forall x, List.nth 0 (fq_bits_le x) false = fq_neg x.
+Proof. intro x. unfold fq_bits_le, fq_neg. cbn [seq map List.nth]. apply Z.bit0_odd. Qed.
+Theorem C14_generated_sign : forall x,
+  @is_nonnegative_gen FqF fq_bits_le x = (true, negb (fq_neg x)) /\
+  @is_negative_gen FqF fq_neg x = (true, fq_neg x) /\
+  @abs_gen FqF fq_neg x = (true, @gabs FqF fq_neg x).
+Proof.
+  intro x. split; [exact (@is_nonnegative_gen_is FqF fq_neg fq_bits_le fq_bits_le_0 x)|].
+  split; [exact (@is_negative_gen_is FqF fq_neg x) | exact (@abs_gen_is FqF fq_neg x)].
+Qed.
 Theorem C14_generated_isqrt : forall x ws y, gen_isqrt x ws y = (g_isqrt x ws y, (ws, y)).
 Proof.
   intros x ws y. unfold gen_isqrt, g_isqrt.
